@@ -340,7 +340,7 @@ fn shapes(thorough: bool) -> Vec<Shape> {
         vec![Sym::SelfRec, Sym::SelfRec],
     ];
     let totals: Vec<u64> = vec![0, 1, 2, 3, 15, 16, 17, u64::MAX];
-    let classes: Vec<u64> = if thorough { vec![0, 1, 2, 3, 253, 254, 255, 256] } else { vec![0, 1, 2, 255, 256] };
+    let classes: Vec<u64> = if thorough { vec![0, 1, 2, 3, 4, 128, 252, 253, 254, 255, 256] } else { vec![0, 1, 2, 3, 254, 255, 256] };
     let mut out = vec![];
     for class in &classes {
         for t in &totals {
@@ -349,9 +349,22 @@ fn shapes(thorough: bool) -> Vec<Shape> {
                 out.push(Shape { class: *class, packets: vec![(*t, a.clone())], then_fail: true });
                 for b in &contents {
                     out.push(Shape { class: *class, packets: vec![(*t, a.clone()), (*t, b.clone())], then_fail: *t > 2 });
-                    if thorough {
+                    if thorough || *t == 3 || *t == 2 || *t == u64::MAX {
                         for c in &contents {
                             out.push(Shape { class: *class, packets: vec![(*t, a.clone()), (*t, b.clone()), (*t, c.clone())], then_fail: *t > 3 });
+                        }
+                    }
+                }
+            }
+        }
+        if thorough {
+            for t in [4u64, u64::MAX] {
+                for a in &contents {
+                    for b in &contents {
+                        for c in &contents {
+                            for d in &contents {
+                                out.push(Shape { class: *class, packets: vec![(t, a.clone()), (t, b.clone()), (t, c.clone()), (t, d.clone())], then_fail: t > 4 });
+                            }
                         }
                     }
                 }
